@@ -391,23 +391,21 @@ def run(ctx):
     writes = [n for n in ast.walk(f_tf.node)
               if isinstance(n, ast.Call) and isinstance(n.func, ast.Attribute)
               and n.func.attr == "write"]
-    ok = len(writes) == 1 and unparse(writes[0].args[0]).replace(
-        '"', "'") == "str(line) + '\\n'"
+    ok = len(writes) == 1 and len(writes[0].args) == 1 and \
+        is_str_plus_lf(writes[0].args[0])
     ctx.oblige(ok)
     if not ok:
         ctx.violation(R, f_tf.short, "write",
                       "each line must be written as str(line) + LF (found %s)"
                       % [unparse(w) for w in writes])
     f_init = ctx.anchor("Gfa.__init__", gfacls.find_method("__init__"))
-    src = unparse(f_init.node)
     ctx.instance(R)
-    ok = "lst = args[0].split('\\n')" in src and "lst = args[0]" in src and \
-        "for line in lst:\n" in src and "self.add_line(line)" in src
+    ok, why = init_feeds_add_line(f_init)
     ctx.oblige(ok)
     if not ok:
         ctx.violation(R, f_init.short, "entry",
                       "Gfa(str) must split on LF and Gfa(list) take the list; "
-                      "every element must go to add_line")
+                      "every element must go to add_line (%s)" % why)
     ctx.instance(R)
     f_add = gfacls.find_method("add_line")
     ok = f_add is not None
@@ -449,3 +447,76 @@ class IterHooks(LineHooks):
 
     def before_inline(self, ev, func, args, kwargs):
         return self.inner.before_inline(ev, func, args, kwargs)
+
+
+def is_str_plus_lf(e):
+    """the expression spells str(x) + LF for a name x"""
+    if isinstance(e, ast.BinOp) and isinstance(e.op, ast.Add) and \
+            isinstance(e.right, ast.Constant) and e.right.value == "\n" and \
+            isinstance(e.left, ast.Call) and \
+            isinstance(e.left.func, ast.Name) and e.left.func.id == "str" and \
+            len(e.left.args) == 1 and isinstance(e.left.args[0], ast.Name):
+        return True
+    if isinstance(e, ast.JoinedStr) and len(e.values) == 2 and \
+            isinstance(e.values[0], ast.FormattedValue) and \
+            isinstance(e.values[0].value, ast.Name) and \
+            e.values[0].conversion in (-1, 115) and \
+            e.values[0].format_spec is None and \
+            isinstance(e.values[1], ast.Constant) and \
+            e.values[1].value == "\n":
+        return True
+    if isinstance(e, ast.Call) and isinstance(e.func, ast.Attribute) and \
+            e.func.attr == "format" and \
+            isinstance(e.func.value, ast.Constant) and \
+            e.func.value.value == "{}\n" and len(e.args) == 1 and \
+            isinstance(e.args[0], ast.Name) and not e.keywords:
+        return True
+    return False
+
+
+def init_feeds_add_line(f):
+    """Gfa.__init__: the loop that calls self.add_line(v) iterates a name
+    that is assigned X.split(LF) (for a str X) and X itself (for a list X),
+    X being the first positional argument or a local copy of it"""
+    aliases = {}
+    assigns = {}
+    for n in ast.walk(f.node):
+        if isinstance(n, ast.Assign) and len(n.targets) == 1 and \
+                isinstance(n.targets[0], ast.Name):
+            assigns.setdefault(n.targets[0].id, []).append(n.value)
+    for name, vals in assigns.items():
+        if len(vals) == 1 and isinstance(vals[0], ast.Subscript):
+            aliases[name] = unparse(vals[0])
+
+    def base(e):
+        t = unparse(e)
+        return aliases.get(t, t)
+    first = "%s[0]" % (f.vararg or "args")
+    for loop in ast.walk(f.node):
+        if not (isinstance(loop, ast.For) and isinstance(loop.iter, ast.Name)
+                and isinstance(loop.target, ast.Name)):
+            continue
+        feeds = any(isinstance(c, ast.Call) and
+                    isinstance(c.func, ast.Attribute) and
+                    c.func.attr == "add_line" and len(c.args) == 1 and
+                    isinstance(c.args[0], ast.Name) and
+                    c.args[0].id == loop.target.id
+                    for st in loop.body for c in ast.walk(st))
+        if not feeds:
+            continue
+        split_of, plain = set(), set()
+        for v in assigns.get(loop.iter.id, []):
+            if isinstance(v, ast.Constant) and v.value is None:
+                continue
+            if isinstance(v, ast.Call) and isinstance(v.func, ast.Attribute) \
+                    and v.func.attr == "split" and len(v.args) == 1 and \
+                    isinstance(v.args[0], ast.Constant) and \
+                    v.args[0].value == "\n" and not v.keywords:
+                split_of.add(base(v.func.value))
+            else:
+                plain.add(base(v))
+        if split_of == {first} and plain == {first}:
+            return True, ""
+        return False, "the lines come from split: %s, as they are: %s" % (
+            sorted(split_of), sorted(plain))
+    return False, "no loop passes its elements to add_line"
